@@ -57,11 +57,23 @@ type State struct {
 	heap   map[string]string // heap array key -> current term
 	defers []deferred
 	epoch  string
+	gepoch string // epoch of the ghost ("G$") arrays: they survive calls into library code
 	id     int
 }
 
+// epochOf: which epoch's base array a heap key reads when it has not been written since.
+func (st *State) epochOf(key string) string {
+	if strings.HasPrefix(key, "G$") {
+		if st.gepoch == "" {
+			return "0"
+		}
+		return st.gepoch
+	}
+	return st.epoch
+}
+
 func (st *State) clone() *State {
-	n := &State{pc: append([]string(nil), st.pc...), vars: make(map[types.Object]*Val, len(st.vars)), heap: make(map[string]string, len(st.heap)), defers: append([]deferred(nil), st.defers...), epoch: st.epoch}
+	n := &State{pc: append([]string(nil), st.pc...), vars: make(map[types.Object]*Val, len(st.vars)), heap: make(map[string]string, len(st.heap)), defers: append([]deferred(nil), st.defers...), epoch: st.epoch, gepoch: st.gepoch}
 	for k, v := range st.vars {
 		n.vars[k] = v
 	}
@@ -109,7 +121,7 @@ func (ex *Exec) heapArrSh(st *State, key string, leafSort string, sh *Shape) str
 	if t, ok := st.heap[key]; ok {
 		return t
 	}
-	name := ex.eng.smt.named("H"+st.epoch+"_"+key, srt)
+	name := ex.eng.smt.named("H"+st.epochOf(key)+"_"+key, srt)
 	if st.epoch == "0" && sh != nil && !ex.eng.refAxDone[name] {
 		ex.eng.refAxDone[name] = true
 		lifted := &Shape{T: sh.T, Leaf: srt, Elem: sh, Idx: "Int", Kind: "lift"}
@@ -283,13 +295,18 @@ func (ex *Exec) havocAllHeap(st *State, why string) {
 				if v, ok := st.heap[k]; ok {
 					keep[k] = v
 				} else {
-					keep[k] = ex.eng.smt.named("H"+st.epoch+"_"+k, ex.eng.heapSortOf(k))
+					keep[k] = ex.eng.smt.named("H"+st.epochOf(k)+"_"+k, ex.eng.heapSortOf(k))
 				}
 			}
 		}
 	}
 	st.heap = keep
 	st.epoch = ex.eng.newEpoch()
+	if !ex.keepGhosts {
+		st.gepoch = st.epoch
+	} else if st.gepoch == "" {
+		st.gepoch = "0"
+	}
 	for _, r := range ex.recs {
 		r.all = true
 	}
@@ -629,7 +646,7 @@ func (ex *Exec) merge2(a, b *State) *State {
 		return a
 	}
 	cond := ex.def("br", "Bool", ca)
-	out := &State{pc: append([]string(nil), a.pc[:n]...), vars: map[types.Object]*Val{}, heap: map[string]string{}, defers: a.defers, epoch: a.epoch}
+	out := &State{pc: append([]string(nil), a.pc[:n]...), vars: map[types.Object]*Val{}, heap: map[string]string{}, defers: a.defers, epoch: a.epoch, gepoch: a.gepoch}
 	out.assume(or(cond, cb))
 	for k, va := range a.vars {
 		vb, ok := b.vars[k]
@@ -643,8 +660,16 @@ func (ex *Exec) merge2(a, b *State) *State {
 			out.vars[k] = ex.iteVal(cond, ex.readVar(a, k), vb)
 		}
 	}
-	if a.epoch == b.epoch {
+	ga, gb := a.gepoch, b.gepoch
+	if ga == "" {
+		ga = "0"
+	}
+	if gb == "" {
+		gb = "0"
+	}
+	if a.epoch == b.epoch && ga == gb {
 		out.epoch = a.epoch
+		out.gepoch = ga
 		keys := map[string]bool{}
 		for k := range a.heap {
 			keys[k] = true
@@ -656,10 +681,10 @@ func (ex *Exec) merge2(a, b *State) *State {
 			srt := ex.eng.heapSortOf(k)
 			ha, hb := a.heap[k], b.heap[k]
 			if ha == "" {
-				ha = ex.eng.smt.named("H"+a.epoch+"_"+k, srt)
+				ha = ex.eng.smt.named("H"+a.epochOf(k)+"_"+k, srt)
 			}
 			if hb == "" {
-				hb = ex.eng.smt.named("H"+b.epoch+"_"+k, srt)
+				hb = ex.eng.smt.named("H"+b.epochOf(k)+"_"+k, srt)
 			}
 			if ha == hb {
 				out.heap[k] = ha
@@ -669,14 +694,21 @@ func (ex *Exec) merge2(a, b *State) *State {
 		}
 	} else {
 		out.epoch = ex.eng.newEpoch()
+		out.gepoch = out.epoch
+		if ga == gb {
+			out.gepoch = ga
+		}
+		if a.epoch == b.epoch {
+			out.epoch = a.epoch
+		}
 		for _, k := range ex.eng.heapKeys() {
 			srt := ex.eng.heapSortOf(k)
 			ha, hb := a.heap[k], b.heap[k]
 			if ha == "" {
-				ha = ex.eng.smt.named("H"+a.epoch+"_"+k, srt)
+				ha = ex.eng.smt.named("H"+a.epochOf(k)+"_"+k, srt)
 			}
 			if hb == "" {
-				hb = ex.eng.smt.named("H"+b.epoch+"_"+k, srt)
+				hb = ex.eng.smt.named("H"+b.epochOf(k)+"_"+k, srt)
 			}
 			if ha == hb {
 				out.heap[k] = ha
